@@ -77,6 +77,26 @@ def run_limit_agreement(ctx, prog):
                     why += "; limit test does not follow the increment"
         ctx.ob(R, "%s (%s): run counter tested as `counter >= MAX_SEQUENCE_SIZE` right after `counter += 1`" % (f.short, role), ok, why, f.loc())
         seen.append(suffix)
+        # the "previous symbol" the detector starts with is no symbol: otherwise a block hash that begins with that very
+        # symbol has its first character counted as a repetition
+        alpha = int(prog.const("block_hash::ALPHABET_SIZE")["v"])
+        prevs = []
+        for l, ds in f.defs.items():
+            if f.locals[l]["ty"] != "u8" or len(ds) < 2 or any(kind != "rv" for (_b, _i, kind, _x) in ds):
+                continue
+            vals = [sy.rvalue(x) for (_b, _i, _k, x) in ds]
+            consts = [v for v in vals if v[0] == "const" and const_value(v) is not None]
+            if len(consts) != 1 or len(consts) == len(vals):
+                continue
+            me = ("local", l, f.locals[l]["name"])
+            compared = any(st["s"] == "assign" and st["rv"]["r"] == "bin" and st["rv"]["op"] in ("Eq", "Ne") and
+                           any(strip(sy.operand(o)) == me for o in (st["rv"]["a"], st["rv"]["b"]))
+                           for _i, _j, st in f.stmts())
+            if compared:
+                prevs.append((l, const_value(consts[0])))
+        okp = len(prevs) == 1 and prevs[0][1] >= alpha
+        ctx.ob(R, "%s (%s): the initial `previous symbol` of the run detector is outside the alphabet (>= ALPHABET_SIZE)" % (f.short, role), okp,
+               "candidates (local, initial value): %s; ALPHABET_SIZE = %d" % ([(f.locals[l]["name"], v) for l, v in prevs], alpha), f.loc())
     ctx.floor(R, len(seen), 4, "run collapsers / checkers")
     c = prog.const("block_hash::MAX_SEQUENCE_SIZE")
     ctx.ob("SA-DATA", "MAX_SEQUENCE_SIZE == 3", int(c["v"]) == 3, "value %s" % c["v"])
